@@ -32,12 +32,6 @@ func init() {
 		},
 		Ref: func(cfg []int, in [][]float64, o, i int) float64 { return rEMA(in[0], cfg[0])[i] },
 		Deg: [][2]int{{1, 0}},
-		KFLen: func(cfg []int, n int) string {
-			if n < cfg[0] {
-				return "KF-C02-ema-spurious-zero"
-			}
-			return ""
-		},
 	})
 	// Macd(P1,P2,P3): macd = EMA_P1 - EMA_P2 ; signal = EMA_P3(macd). Two outputs.
 	reg(&Ind{
